@@ -10,7 +10,7 @@ import (
 
 func init() {
 	register(&propDef{ID: "C16", Run: runC16,
-		Explain: "Structural necessary conditions of 'dialog identity is direction-independent and discriminating', decided by symbolic evaluation of the key-building code of /repo (string terms over SSA, helpers inlined): (1) dependency-set: on every successful path the key term has exactly the leaves Call-ID, From tag, To tag, From address, To address and nothing else of the message; addresses are rendered by ToString(false,false) for SIP URIs (whose parameter and header loops are guarded by those flags) and by String() otherwise, and are taken from the addr-spec, never the display name; (2) swap-symmetry: the two success paths build the same term with the From and To halves exchanged, and the comparison that selects the path compares those very halves (so a tie implies identical halves); (3) injective-join: every message-derived leaf of the key is rendered self-delimited (%q), so two different component tuples cannot give one key; (4) tag-errors: an error of either GetTag (and of every other component lookup) is returned, so a message lacking a tag has no dialog.",
+		Explain:    "Structural necessary conditions of 'dialog identity is direction-independent and discriminating', decided by symbolic evaluation of the key-building code of /repo (string terms over SSA, helpers inlined): (1) dependency-set: on every successful path the key term has exactly the leaves Call-ID, From tag, To tag, From address, To address and nothing else of the message; addresses are rendered by ToString(false,false) for SIP URIs (whose parameter and header loops are guarded by those flags) and by String() otherwise, and are taken from the addr-spec, never the display name; (2) swap-symmetry: the two success paths build the same term with the From and To halves exchanged, and the comparison that selects the path compares those very halves (so a tie implies identical halves); (3) injective-join: every message-derived leaf of the key is rendered self-delimited (%q), so two different component tuples cannot give one key; (4) tag-errors: an error of either GetTag (and of every other component lookup) is returned, so a message lacking a tag has no dialog.",
 		NotDecided: "URI equivalence beyond the included components (escaping, case of hosts)."})
 }
 
@@ -205,6 +205,8 @@ func runC16(c *Ctx) {
 		}
 	}
 	c16Addr(c)
+	c16Siblings(c)
+	c16URISplitOrder(c, "dependency-set")
 	c.floor("dependency-set", 2)
 	c.floor("injective-join", 2)
 	c.floor("tag-errors", 12)
@@ -266,7 +268,9 @@ func c16Addr(c *Ctx) {
 			default:
 				continue
 			}
-			flag := func(a Atom) bool { return a.Kind == "bool" && pi < len(f.Params) && strip(a.X) == ssa.Value(f.Params[pi]) }
+			flag := func(a Atom) bool {
+				return a.Kind == "bool" && pi < len(f.Params) && strip(a.X) == ssa.Value(f.Params[pi])
+			}
 			c.check(w.requires(f, rl.If, flag, true), rule, "_Write/"+ref+"-guarded-by-flag", w.ipos(rl.If), "printed only when the flag is set", ref+" is printed although the corresponding flag is false: it leaks into the dialog key")
 		}
 		// the key rendering prints stored components only: no accessor that substitutes a default (port, transport)
@@ -315,4 +319,89 @@ func c16Addr(c *Ctx) {
 			c.check(good, rule, n.fn+"/result", w.pos(f.Pos()), "returns the addr-spec (inside the name-addr when present)", n.fn+" returns something other than the addr-spec of the header")
 		}
 	}
+}
+
+// c16Siblings: From and To are decoded by sibling functions; the key is independent of the direction only if both
+// cut the same pieces out of the same header text. The pieces handed to the sub-decoders are compared as terms.
+func c16Siblings(c *Ctx) {
+	w := c.w
+	rule := "swap-symmetry"
+	a, b := c.fn(rule, "ParseFromSpec"), c.fn(rule, "ParseTo")
+	if a == nil || b == nil {
+		return
+	}
+	sa := w.callShapes(a, "ParseAddrSpec", "ParseNameAddr", "ParseGenericParam", "strings.Split")
+	sb := w.callShapes(b, "ParseAddrSpec", "ParseNameAddr", "ParseGenericParam", "strings.Split")
+	same := len(sa) == len(sb) && len(sa) >= 4
+	for i := range sa {
+		if i < len(sb) && sa[i] != sb[i] {
+			same = false
+		}
+	}
+	var facts []string
+	if !same {
+		facts = append(facts, "ParseFromSpec: "+strings.Join(sa, " ; "), "ParseTo:       "+strings.Join(sb, " ; "))
+	}
+	c.check(same, rule, "ParseFromSpec~ParseTo/same-pieces", w.pos(b.Pos()), "From and To headers are cut into the same pieces", "ParseFromSpec and ParseTo hand different pieces of the same header text to the address / parameter decoders: the same endpoint yields a different address (or no dialog) depending on whether it appears in From or in To, so the two directions of a dialog get different keys", facts...)
+}
+
+// c16URISplitOrder: the SIP URI decoder removes the headers (from the first '?') and then the parameters (from the
+// first ';') before it looks for the '@' that ends the user part, each at its first occurrence: otherwise a parameter
+// or header value containing '@', ';' or ':' is taken for user, host or port, and the parameters the dialog key must
+// ignore end up inside the address.
+func c16URISplitOrder(c *Ctx, rule string) {
+	w := c.w
+	f := c.fn(rule, "ParseSipURI")
+	if f == nil {
+		return
+	}
+	find := func(b byte) (*ssa.Call, bool) {
+		var out *ssa.Call
+		first := true
+		n := 0
+		for _, cs := range w.callsIn(f) {
+			if !indexFamily[cs.Name] {
+				continue
+			}
+			call, ok := cs.In.(*ssa.Call)
+			if !ok || len(call.Call.Args) < 2 {
+				continue
+			}
+			if bb, isB := constByte(call.Call.Args[1]); isB && bb == b {
+				out = call
+				n++
+				first = !strings.Contains(cs.Name, "Last")
+			}
+		}
+		if n != 1 {
+			return nil, false
+		}
+		return out, first
+	}
+	q, qf := find('?')
+	sc, sf := find(';')
+	at, af := find('@')
+	if q == nil || sc == nil || at == nil {
+		c.bad(rule, "ParseSipURI/split-order", w.pos(f.Pos()), "ParseSipURI does not search each of '?', ';' and '@' exactly once")
+		return
+	}
+	// text is `prev` cut at the position found by k (or prev itself when k found nothing)
+	cutBy := func(text ssa.Value, k *ssa.Call) bool {
+		ph, ok := strip(text).(*ssa.Phi)
+		if !ok || len(ph.Edges) != 2 {
+			return false
+		}
+		for i := 0; i < 2; i++ {
+			sl, ok := strip(ph.Edges[i]).(*ssa.Slice)
+			if !ok {
+				continue
+			}
+			if strip(sl.X) == strip(ph.Edges[1-i]) && isZeroOrNil(sl.Low) && sl.High != nil && strip(sl.High) == ssa.Value(k) && strip(k.Call.Args[0]) == strip(sl.X) {
+				return true
+			}
+		}
+		return false
+	}
+	good := qf && sf && af && cutBy(sc.Call.Args[0], q) && cutBy(at.Call.Args[0], sc)
+	c.check(good, rule, "ParseSipURI/split-order", w.ipos(at), "headers, then parameters are cut off at their first delimiter before the user part is looked for", "ParseSipURI does not cut the URI at the first '?' and then at the first ';' before searching the first '@': a parameter or header value containing '@' or ':' is decoded as user/host, and URI parameters leak into the address the dialog key is built from")
 }
